@@ -594,13 +594,16 @@ class C08(World):
         real = ProblemTable.insert_temperature_interval
         calls = []
 
-        def wrapped(self_pt, T_ls):
+        def wrapped(self_pt, T_ls, *more, **kw):
+            # any further arguments a call site passes are forwarded untouched (the monitor must not depend on the signature)
             fr = inspect.currentframe().f_back
             site_fn = f"{fr.f_code.co_filename.rsplit('/', 1)[-1]}:{fr.f_code.co_name}"
             if self_pt.data is None:
-                return real(self_pt, T_ls)
+                return real(self_pt, T_ls, *more, **kw)
+            if more or kw:
+                probe("pipeline_call_with_extra_arguments")
             before = table_view(self_pt)
-            ret = real(self_pt, T_ls)
+            ret = real(self_pt, T_ls, *more, **kw)
             after = table_view(self_pt)
             req = [float(x) for x in np.atleast_1d(np.asarray(T_ls, dtype=float)).tolist()]
             bk = block_kind(before["T"], req) if len(before["T"]) else "none"
